@@ -88,7 +88,8 @@ class RetryMonitor(Monitor):
                 self.eof = Proc("eof", t + self.ack_ms, eofs[-1].raw, True)
             return
         observing = rec.op == "sm" and rec.inb is None and rec.pre.step in ("WAITING_FOR_EOF_ACK", "RETRANSMITTING")
-        if rec.op == "sm" and rec.inb is not None and rec.inb_kind not in ("NAK", "ACK", "FIN") and rec.exc is None:
+        if rec.op == "sm" and rec.inb is not None and rec.inb_kind not in ("NAK", "ACK") and rec.exc is None:
+            # e.g. a Finished PDU that passes admission because the public step is RETRANSMITTING
             observing = rec.pre.step in ("WAITING_FOR_EOF_ACK", "RETRANSMITTING")
         if not observing:
             if eofs or any(f[2] == POS_ACK_LIMIT for f in rec.faults):
